@@ -172,7 +172,7 @@ class Classifier:
         # structure recentred) so that it contains all atoms. The search for
         # periodic regions assumes that every atom is inside the cell.
         pbc = system.get_pbc()
-        if not all(pbc) and system.get_volume() > 0:
+        if not all(pbc) and system.cell.rank == 3:
             scaled_positions = system.get_scaled_positions(wrap=False)
             new_cell = system.get_cell()
             scale_cell = False
